@@ -12,3 +12,7 @@ FULL_DEPS = ["yamux", "multistream"]
 # QUIC stratum: the real QUIC transport and quic-go itself as tasks of the scheduler, over simnet's UDP model.
 QUIC_STACK = ["./p2p/transport/quic", "./p2p/transport/quicreuse"]
 QUIC_DEPS = ["quic"]
+
+# WebTransport on top of the QUIC stratum: quic-go/http3 (part of the quic copy) and webtransport-go instrumented too.
+WT_STACK = ["./p2p/transport/webtransport"]
+WT_DEPS = ["webtransport"]
